@@ -6,3 +6,9 @@ package hashing
 
 //@ func IsValidModelMultihash(model, modelMultihash) (err)
 //@   pure
+
+//@ func IsComputedUsingMultihashAlgorithms(encodedMultihash, codes) (r)
+//@   pure
+//
+//@ func GetMultihashCode(encodedMultihash) (code, err)
+//@   pure
